@@ -17,7 +17,7 @@ EXHAUSTIVE = {"quick": ["all strings len<=3 over AB as A and B, 6 weight triples
               "thorough": ["all strings len<=4 over AB as A and B, 14 weight triples", "all strings len<=3 over ABC, 6 weight triples", "pdist layout for every m in 2..14"]}
 REQUIRE = {"cdist_cells_checked": 5000, "pdist_entries_checked": 500, "asymmetric_weight_cases": 20, "sub_gt_ins_plus_del_cases": 5,
            "long_string_pairs": 10, "functional_pdist_cases": 20, "functional_cdist_cases": 20, "kwargs_forwarded_checked": 10,
-           "float_callable_cases": 5, "squareform_roundtrips": 20}
+           "float_callable_cases": 5, "squareform_roundtrips": 20, "default_metric_kwargs_cases": 5}
 SHARDS = {"quick": 4, "thorough": 16}
 WEIGHTS = [(1, 1, 1), (2, 5, 3), (5, 2, 3), (1, 1, 7), (3, 1, 1), (1, 3, 2), (2, 2, 1), (1, 2, 4), (4, 1, 9), (7, 7, 7),
            (1, 9, 1), (9, 1, 1), (2, 3, 6), (3, 2, 5)]
@@ -159,6 +159,12 @@ def k_fn(ctx, X, B=None, mode="order", kw=None):
     elif mode == "float":
         f, extra, oracle = f_float, {"dtype": float}, lambda a, b: table[a] * 1.5 - table[b] * 0.25 + kw.get("shift", 0.0)
         ctx.count("float_callable_cases")
+    elif mode == "default_weights":
+        # default metric (Levenshtein distance) with keyword arguments it accepts: they must reach it
+        wi, wd, ws = kw["weights"]
+        f, extra, oracle = None, {}, (lambda a, b: O.wlev(a, b, wi, wd, ws))
+        kw = {"weights": tuple(kw["weights"])}
+        ctx.count("default_metric_kwargs_cases")
     else:
         f, extra, oracle = None, {}, O.lev
     ctx.nontriv(["F", X, B, mode, kw])
@@ -257,15 +263,17 @@ def generate(tier, seed):
     for i in range(600 if thorough else 60):
         m = rng.randint(2, 8)
         X = rng.sample(names, m)
-        mode = ["order", "float", "default"][i % 3]
+        mode = ["order", "float", "default", "default_weights"][i % 4]
         kw = {}
         if mode == "order" and i % 2:
             kw = {"bonus": rng.randint(1, 5), "other": rng.randint(0, 3)}
         if mode == "float" and i % 2:
             kw = {"shift": 0.5}
-        if mode == "default":
+        if mode in ("default", "default_weights"):
             X = G.small_multiset(rng, G.universe("ACD", 4), 2, 9)
+        if mode == "default_weights":
+            kw = {"weights": [rng.randint(1, 3), rng.randint(1, 3), rng.randint(1, 5)]}
         p = {"X": X, "mode": mode, "kw": kw}
         if i % 2 == 0:
-            p["B"] = rng.sample(names, rng.randint(1, 7)) if mode != "default" else G.small_multiset(rng, G.universe("ACD", 4), 1, 6)
+            p["B"] = rng.sample(names, rng.randint(1, 7)) if mode not in ("default", "default_weights") else G.small_multiset(rng, G.universe("ACD", 4), 1, 6)
         yield "fn", p, i < 40
